@@ -228,6 +228,12 @@ Example C02_hidden_end_example : show_termini (termini ex_opts (close_of []) ex_
   = "0:1000:NTERM+NTERM:B,1:0100:CTERM:B|2:1000:NTERM:A,3:0100:CTERM+CTERM:A"%string.
 Proof. exact ex_hidden_termini. Qed.
 
+(* the closure test looks at the first N-bearing and the last C-bearing residue of the chain
+   (fix C02-F3): a ring with waters listed before and after it under its chain id stays untouched *)
+Example C02_ring_with_water_example : show_termini (termini ex_opts (close_of [(0, 2)]) ex_ring_water)
+  = "9:0000::A,0:0000::A,1:0000::A,2:0000::A,3:0000::A"%string.
+Proof. exact ex_ring_water_termini. Qed.
+
 (* non-vacuity: a three-chain list (peptide + water, cyclic tripeptide, blank-chain
    dinucleotide) meets no_hidden and gets the expected flags; the state table has a
    fully parameterised charged state; an AMBER strand resolves *)
@@ -361,6 +367,7 @@ Print Assumptions C02_state_from_flags.
 Print Assumptions C02_termini_cyclic_after_split_refuted.
 Print Assumptions C02_cyclic_split_example.
 Print Assumptions C02_hidden_end_example.
+Print Assumptions C02_ring_with_water_example.
 Print Assumptions C02_nonvacuous.
 Print Assumptions C02_guard_never_fires_AMBER.
 Print Assumptions C02_guard_never_fires_CHARMM.
